@@ -353,6 +353,12 @@ def chain_orientation(rep, mod, repo_logic=None):
             rk = expr_rank(v, {'scan_in_inversion': ('n',), 'scan_out_inversion': ('n',)}, repo_logic)
         except ModelError as e:
             raise ModelError(f'_maps: shape of `{norm(v)}` not analysable: {e}')
+        # ... of logic values: booleans become ZERO/ONE through logic.mvarray (True as a raw integer 1 is the code of UNKNOWN)
+        enc = isinstance(v, ast.Call) and (call_name(v) or '').split('.')[-1] == 'mvarray'
+        rep.ob('C18.rank', f'scan_inversions[{key}] is encoded by logic.mvarray', enc)
+        if not enc:
+            rep.violate('C18.rank', mod, f, st[0], f'_maps: `{norm(st[0])[:90]}` does not encode the inversion flags with logic.mvarray: the flags are booleans, and only mvarray maps True to ONE '
+                        f'(0b011); a plain integer array stores 1 = UNKNOWN, so mv_xor turns every inverted cell into X', node=st[0])
         ok = rk == ('n',)
         rep.ob('C18.rank', f'scan_inversions[{key}] = {norm(v)} has shape {rk}', ok, sample={'rule': 'C18.rank', 'expr': norm(v), 'shape': list(rk)})
         if not ok:
